@@ -190,6 +190,21 @@ def rule_isolation(ctx: Ctx) -> None:
     own = [s for s in ast.walk(init.node) if isinstance(s, ast.Assign) and any(norm(t) == "self.cache" for t in s.targets)]
     made = [s for s in own if any(isinstance(c, ast.Call) and dotted(c.func) == "create_cache" for c in ast.walk(Defs(init).resolve(s.value)))]
     ctx.tri("3-isolation", init, own[0] if own else init.node, bool(made), False, "every pipeline constructs its own cache object", "", "self.cache is not assigned from create_cache(...)", key="own-cache")
+    # ... and nobody hands one pipeline's cache object to another pipeline: keys are (output name, root values) and say nothing about
+    # WHICH functions computed the value - a copy / subpipeline whose functions are then replaced or re-bound would answer the parent
+    foreign = []
+    for f_ in P.functions.values():
+        if not f_.module.name.startswith("pipefunc._pipeline"):
+            continue
+        for a in ast.walk(f_.node):
+            if isinstance(a, ast.Assign):
+                for t in a.targets:
+                    if isinstance(t, ast.Attribute) and t.attr == "cache" and not (isinstance(t.value, ast.Name) and t.value.id == "self" and f_.name == "__init__"):
+                        if not any(isinstance(c, ast.Call) and dotted(c.func).rsplit(".", 1)[-1] == "create_cache" for c in ast.walk(a.value)):
+                            foreign.append((f_, a))
+    ctx.add("3-isolation", foreign[0][0] if foreign else init, foreign[0][1] if foreign else init.node, not foreign, "no pipeline is given another pipeline's cache object" if not foreign else
+            f"`{norm(foreign[0][1])[:60]}` makes two pipeline objects share one cache: entries are keyed by output name and root values only, so after replace / update_bound on one of them the other returns values "
+            "computed by functions it does not contain", key="cache-not-shared")
     # a memoised deserialiser hands ONE object to every caller: a hit that is modified in place (by a downstream function or
     # the caller) changes what all later hits of that entry return
     exempt = {"pipefunc._utils._cached_load": "only reached through load(..., cache=True), which C04.1 fresh-load forbids for results"}
